@@ -334,7 +334,9 @@ let codec_case (line : string) : string =
                | h :: tl ->
                    let cfg = mk_cfg owned_arms (parse_ztab tl) [] in
                    String.concat " ;; " (List.map (fun x ->
-                     if String.length x > 0 && x.[0] = 'T' then
+                     if String.length x > 0 && x.[0] = 'B' then
+                       dres_str (decode (mk_cfg borrowed_arms (parse_ztab tl) []) (bytes_of_hex (String.sub x 1 (String.length x - 1))))
+                     else if String.length x > 0 && x.[0] = 'T' then
                        (match bytes_of_hex (String.sub x 1 (String.length x - 1)) with
                         | [] -> "err eof"
                         | v :: r -> if int_of_n v <> 131 then "err tag" else
@@ -352,7 +354,7 @@ let codec_case (line : string) : string =
                    let o = dres_str (decode (mk_cfg owned_arms (parse_ztab tl) []) data) in
                    Printf.sprintf "b=%s ; o=%s" b o
                | [] -> failwith "decb")
-  | "dec2" | "decb2" | "dect2" | "deca2" | "decf2" | "decr2" | "decc2" | "decg2" | "inflate" | "convh" | "hdr" -> "-"
+  | "dec2" | "decb2" | "dect2" | "deca2" | "decf2" | "decr2" | "decc2" | "decg2" | "inflate" | "convh" | "hdr" | "hdrh" -> "-"
   | "hdrdec" ->
       let cache = ref [] in
       let outs = List.map (fun h ->
